@@ -102,6 +102,10 @@ pub struct Scenario {
     /// mixed into the schedule PRNG; the minimiser varies it to re-search schedules
     #[serde(default)]
     pub sched_salt: u64,
+    /// 0 = uniformly random hand-offs; d >= 1 = PCT-style priority schedule with d-1 priority
+    /// change points (finds orderings that need few specific preemptions with higher probability)
+    #[serde(default)]
+    pub pct_depth: u8,
 }
 
 impl Scenario {
@@ -216,6 +220,7 @@ pub fn generate(g: &GenCtx, seed: u64) -> Scenario {
         probe: true,
         mode: "normal".into(),
         sched_salt: 0,
+        pct_depth: 0,
     };
     // ---- swarm configuration
     let n_threads = 1 + weighted(&mut rng, &[15, 30, 25, 15, 8, 7]);
@@ -233,6 +238,9 @@ pub fn generate(g: &GenCtx, seed: u64) -> Scenario {
         sc.preempt_pct = rng.range(3, 60) as u8;
     }
     sc.switch_pct = rng.range(5, 90) as u8;
+    if n_threads >= 2 && rng.pct(25) {
+        sc.pct_depth = rng.range(1, 4) as u8;
+    }
     // disabled op kinds (swarm): each kind off with 25 %
     let mut kind_off: Vec<&'static str> = Vec::new();
     for k in &g.kinds {
